@@ -120,6 +120,31 @@ for e_ in ("len((t, u))", "sorted((t, u))", "t + 1", "abs(t)"):
 for expr in ["len((t, u))", "open(t)", "sorted((t, u))", "t + len((u,))", "abs(open)", "max(t, len((u, u)))"] + exprs[:: 5]:
     for names in ({"t", "u"}, {"t"}):
         one_call(ExpressionEvaluator(), expr, names, "fresh evaluator created after one with extra functions compiled expressions")
+# evaluating reads nothing but the variables of THAT call: no value survives from an earlier evaluation on the same evaluator
+shared2 = ExpressionEvaluator()
+evaluations += 4
+distinct.add(("evaluation-isolation",))
+try:
+    f1 = shared2.compile("t + u", {"t", "u"})
+    f1(t=1, u=2)
+    f2 = shared2.compile("t * u", {"t", "u"})
+    try:
+        v = f2(t=5)
+        fail("evaluation-reads-a-value-that-is-not-one-of-its-variables", expr="t * u", given={"t": 5}, value=repr(v), history="after t + u was evaluated with u = 2 on the same evaluator")
+    except Exception:      # noqa - NameError expected: u was not supplied
+        pass
+    f3 = shared2.compile("abs + 1", {"abs"})
+    f3(abs=3)
+    v4 = shared2.compile("abs(t)", {"t"})(t=-2)
+    if v4 != 2:
+        fail("evaluation-reads-a-value-that-is-not-one-of-its-variables", expr="abs(t)", given={"t": -2}, value=repr(v4), history="after a variable named abs was evaluated on the same evaluator")
+    v5 = ExpressionEvaluator().compile("max(t, 1)", {"t"})(t=0)
+    if v5 != 1:
+        fail("evaluation-reads-a-value-that-is-not-one-of-its-variables", expr="max(t, 1)", given={"t": 0}, value=repr(v5), history="fresh evaluator after the above")
+except ExpressionError as ex:
+    fail("valid-expression-rejected-in-the-isolation-case", exc=str(ex)[:100])
+except Exception as ex:      # noqa
+    fail("evaluation-reads-a-value-that-is-not-one-of-its-variables", exc=repr(ex)[:200], history="isolation case raised")
 samples.append({"expressions": len(exprs), "declared_sets": len(NAMESETS), "accepted_pairs": len(distinct)})
 print(json.dumps({"bound": f"{len(exprs)} expressions (benign forms + {len(ESCAPES)} escape idioms at {len(TEMPLATES)} positions) x {len(NAMESETS)} declared-variable sets x 4 call histories (fresh evaluator; one shared evaluator widest-first / narrowest-first / shuffled, expression-major and set-major) + fresh evaluators after an evaluator with functions of its own was used",
                   "evaluations": evaluations, "distinct_nontrivial": len(distinct),
